@@ -313,10 +313,20 @@ Definition owner_is (e : env) (t : tag) : bool :=
 Definition list_eqb (l m : list nat) : bool :=
   (Nat.eqb (length l) (length m)) && forallb (fun x => memn x m) l && forallb (fun x => memn x l) m.
 
+(* the coordinator's open transaction has no data entry yet: nothing is open on any registered
+   partition (nor on the group's offsets) *)
+Definition no_open (en : env) : bool :=
+  forallb (fun p => match rc_open_t (log_of p (glog en)) with [] => true | _ => false end) (eparts en).
+
 (* environment transitions *)
+(* The application transaction that registers while the coordinator has no transaction open becomes its
+   owner (ghost).  A registration applied while the open coordinator transaction still holds no data
+   takes it over: an application transaction that ended without EndTxn because none of its registrations
+   had been acknowledged (their replies were lost) leaves such an empty transaction behind, and the next
+   one simply continues it, as with the Java client. *)
 Definition env_add (en : env) (ps : list nat) (t : tag) : env :=
   mkE EOngoing (eep en) (einit en) (eissued en) (unionn (eparts en) ps) (glog en)
-      (if is_ongoing en then eowner en else Some t) (edone en).
+      (if is_ongoing en then (if no_open en then Some t else eowner en) else Some t) (edone en).
 Definition env_append (en : env) (p : nat) (x : entry) : env :=
   mkE (est en) (eep en) (einit en) (eissued en) (eparts en) (glog en ++ [(p, x)]) (eowner en) (edone en).
 Definition env_st (en : env) (st : cstate) (ep : nat) : env :=
@@ -544,7 +554,7 @@ Definition step (s : gstate) (e : event) : option gstate :=
             | VApplied =>
                 if Nat.eqb (cep c) (eep en) && not_prep en
                 then Some (put_env (put s i (set_creq (set_cowned (set_slot c (Some (KParts, SApplied)))
-                                                                  (cowned c || negb (is_ongoing en))) ps))
+                                                                  (cowned c || negb (owner_is en (tagof i c)))) ps))
                                    (env_add en ps (tagof i c)))
                 else None
             | VNot => Some (put s i (set_slot c (Some (KParts, SNotApplied))))
@@ -560,7 +570,7 @@ Definition step (s : gstate) (e : event) : option gstate :=
             | VApplied =>
                 if Nat.eqb (cep c) (eep en) && not_prep en
                 then Some (put_env (put s i (set_cowned (set_slot c (Some (KOffs, SApplied)))
-                                                        (cowned c || negb (is_ongoing en))))
+                                                        (cowned c || negb (owner_is en (tagof i c)))))
                                    (env_add en [GROUPP] (tagof i c)))
                 else None
             | VNot => Some (put s i (set_slot c (Some (KOffs, SNotApplied))))
@@ -677,8 +687,10 @@ Definition ob (s : gstate) (e : event) : option nat :=
       match get s i with
       | Some c =>
           (* registering into a coordinator transaction that another application transaction
-             opened, or opening a second one, is writing outside the transaction *)
-          if is_ongoing en then (if owner_is en (tagof i c) then None else Some 3%nat)
+             opened and wrote to, or opening / taking over a second one, is writing outside the
+             transaction; taking over an open transaction that holds no data is not *)
+          if is_ongoing en then (if owner_is en (tagof i c) || (no_open en && negb (cowned c)) then None
+                                 else Some 3%nat)
           else (if cowned c then Some 3%nat else None)
       | None => None
       end
@@ -701,11 +713,15 @@ Definition ob (s : gstate) (e : event) : option nat :=
       | Some c =>
           (* abort is reported only if no EndTxn(commit) of this transaction was applied; a commit
              completes without EndTxn only if the transaction accepted nothing; an abort completes
-             without EndTxn only if the coordinator holds no open transaction of it *)
+             without EndTxn only if the coordinator holds no open transaction of it — or holds one that
+             is still empty: the client skips EndTxn when none of its registrations was acknowledged
+             (is_empty_transaction, guard of AComplete) and then nothing of it was produced or
+             offset-committed; registrations whose replies were lost may be left at the coordinator *)
           if (match cst c with ABORTING => csent c | _ => false end) then Some 4%nat
           else if slot_is c KEnd SApplied then None
           else match cst c with
-               | ABORTING => if owner_is en (tagof i c) then Some 4%nat else None
+               | ABORTING => if owner_is en (tagof i c) && negb (is_niln (capp c) && no_open en)
+                             then Some 4%nat else None
                | _ => if is_niln (accepted c) then None else Some 4%nat
                end
       | None => None
